@@ -52,12 +52,12 @@ def run(t):
                        f"located in {o['extra'].get('bases')} base artifacts (signed and unsigned fixtures of 15 package types; upload tarballs of apk/appx/msi/macho/dmg) x "
                        "classes {0, 1, v-1, v+1, file size, file size+1000, 2^(n-1)-1, 2^n-1, 2^(n-1)} x entry points {verify, is-signed probe, client transform, "
                        "server /sign with the real handler}, plus truncation at 4 points and garbling of nested compressed streams (deb control/data members, xar table "
-                       "of contents: early, middle, unknown compression suffix) and a harness-written ZIP64 archive; child under ulimit -v 2.5 GiB (a 2 GiB allocation fails deterministically), 30 s wall clock; "
+                       "of contents: early, middle, unknown compression suffix), a harness-written ZIP64 archive, PE images under the page-hash option, and crafted cases (script signature-block lines, inconsistent appx metadata, PE headers longer than a page, code-directory page-size exponents); child under ulimit -v 2.5 GiB (a 2 GiB allocation fails deterministically), 30 s wall clock; "
                        "the server's access log distinguishes a recovered panic from an ordinary 500")
     run.cov["exhaustive"] = False
     run.assumptions += ["structured boundary corruption of known fields only: nothing is claimed about arbitrary byte strings (no coverage-guided mutation in this family)",
                         "one field at a time; values written as the field's own integer width/endianness; ASCII size fields of ar and tar as decimal/octal text",
-                        "text formats (PowerShell, manifests, PGP) and nested CMS inside containers are not corrupted here"]
+                        "text formats (manifests, PGP) and nested CMS inside containers are not corrupted here; of the script family only the signature block (seven crafted line-level variants)"]
     return run.finish()
 
 
